@@ -48,6 +48,21 @@ def _paths(spec: Spec, root: str, props: List[Any], depth: int = 1) -> List[Path
     return out
 
 
+def _strip_outer(e: str) -> str:
+    """Remove one pair of parentheses that encloses the whole expression."""
+    if not (e.startswith("(") and e.endswith(")")):
+        return e
+    depth = 0
+    for i, ch in enumerate(e):
+        if ch == "(":
+            depth += 1
+        elif ch == ")":
+            depth -= 1
+            if depth == 0 and i != len(e) - 1:
+                return e
+    return e[1:-1]
+
+
 class _Gen:
     def __init__(self, draw: Any, spec: Spec, opts: Opts) -> None:
         self.draw = draw
@@ -156,11 +171,15 @@ class _Gen:
         """Wrap ``cond`` so that every optional prefix is checked before use."""
         if not guards:
             return cond
-        style = self.draw(st.integers(0, 3))
+        style = self.draw(st.integers(0, 4))
         gs = list(guards)
         if self.opts.unsafe_optional > 0 and self.chance(self.opts.unsafe_optional):
             # drop / misplace a guard on purpose (C07: must be rejected by inference)
-            which = self.draw(st.integers(0, 2))
+            which = self.draw(st.integers(0, 3))
+            if which == 3:
+                # the None-checks sit under an ``or`` inside a conjunction of the antecedent: they guard nothing
+                inner = " or ".join(f"{g} is not None" for g in gs)
+                return f"not ((2 > 1) and ({inner} or 2 > 1)) or ({cond})"
             if which == 0:
                 gs = gs[:-1]
                 if not gs:
@@ -182,6 +201,9 @@ class _Gen:
             for g in reversed(gs):
                 out = f"({g} is None or ({out}))"
             return out
+        if style == 4:
+            # one flat disjunction with several ``is None`` operands
+            return "(" + " or ".join([f"{g} is None" for g in gs] + [f"({cond})"]) + ")"
         out = cond
         for g in reversed(gs):
             out = f"(not ({g} is not None) or ({out}))"
@@ -220,7 +242,13 @@ class _Gen:
             parts[j] = f"{bp.text} {op} ({parts[j]})" if self.draw(st.booleans()) else f"({parts[j]}) {op} {bp.text}"
         expr = parts[0]
         for nxt in parts[1:]:
-            c = self.draw(st.integers(0, 3))
+            c = self.draw(st.integers(0, 4))
+            if c == 4 and " is None or " in expr and " is None or " in nxt:
+                # one flat ``or`` with two ``is None`` checks on different expressions
+                expr = f"{_strip_outer(expr)} or {_strip_outer(nxt)}"
+                continue
+            if c == 4:
+                c = 1
             if c == 0:
                 expr = f"({expr}) and ({nxt})"
             elif c == 1:
